@@ -36,7 +36,10 @@ func (r ReEncryptHandler) EncryptWithClientID(clientID, data []byte, setting con
 
 	if setting.ShouldReEncryptAcraStructToAcraBlock() {
 		// decrypt AcraStruct inside SerializedContainer to encrypt it with AcraBlock
-		if _, serialized, err := ExtractSerializedContainer(data); err == nil {
+		// re-encrypt only when the container is the whole value: with bytes after the container the
+		// value is handled like any other input below (ExtractSerializedContainer does not compare
+		// the declared length with len(data), and the bytes after it would be dropped silently)
+		if n, serialized, err := ExtractSerializedContainer(data); err == nil && n == len(data) {
 			dataContext := base.NewDataProcessorContext(r.keystore)
 			accessContext := base.NewAccessContext(base.WithClientID(clientID))
 			dataContext.Context = base.SetAccessContextToContext(context.Background(), accessContext)
